@@ -181,9 +181,16 @@ def check_property(a):
         'coverage': coverage, 'assumptions': sorted(assumptions), 'wall_s': round(time.time() - t0, 2),
         'violations': len(violations),
     }
-    os.makedirs(os.path.join(VERIF, 'evidence'), exist_ok=True)
-    with open(os.path.join(VERIF, 'evidence', prop + '.json'), 'w') as f:
+    # evidence of runs against another tree (seeded changes in scratch worktrees: PYVC_REPO) or of partial runs
+    # (--units) never replaces the evidence of /repo
+    evdir = os.path.join(VERIF, 'evidence') if (REPO == '/repo' and not a.units) else os.path.join('/tmp', 'pyvc_evidence_scratch')
+    os.makedirs(evdir, exist_ok=True)
+    with open(os.path.join(evdir, prop + '.json'), 'w') as f:
         json.dump(ev, f, indent=1, sort_keys=True)
+    if os.environ.get('PYVC_TIMES'):
+        slow = sorted([o for o in counted if o['time'] >= float(os.environ['PYVC_TIMES'])], key=lambda o: -o['time'])
+        for o in slow[:40]:
+            print('  SLOW %.1fs [%s] %s %s %s' % (o['time'], o.get('backend'), o['unit'].split(':')[-1], o['name'], ((o.get('info') or {}).get('expr') or '')[:90]))
     for ln in lines:
         print(ln)
     print('%s: %d units, %d obligations, %d proved, %d refuted, %d undecided, %d known findings; exit %d; %.1fs'
